@@ -5,7 +5,7 @@ use std::process::{Command, Stdio};
 use std::sync::atomic::{AtomicU64, Ordering};
 use std::time::{Duration, Instant};
 
-use chrono::NaiveDate;
+use chrono::{Datelike, NaiveDate};
 use islamic_prayer_times::{prayer_times_dt_rng, DateRange, HijriDate, Params};
 use proptest::prelude::*;
 use serde::{Deserialize, Serialize};
@@ -497,7 +497,7 @@ impl Prop for C19 {
         let lat = prop_oneof![14 => gen::latitude(64.0), 2 => gen::latitude(90.0), 1 => prop_oneof![Just(90.0), Just(-90.0), Just(-0.5), Just(-33.25)]].boxed();
         let site = (lat, gen::longitude(), gen::elevation(), prop_oneof![3 => -12.0..=12.0f64, 3 => (-12..=12i32).prop_map(|h| h as f64), 1 => prop_oneof![Just(12.0), Just(-12.0), Just(-3.5)]])
             .prop_map(|(lat, lon, elev, gmt)| Site { lat: F(lat), lon: F(lon), elev: F(elev), gmt: F(gmt) });
-        let len = prop_oneof![3 => Just(1u32), 2 => Just(2u32), 1 => prop_oneof![Just(365u32), Just(366), Just(400)], 6 => 1u32..=40, 2 => 1u32..=400];
+        let len = prop_oneof![3 => Just(1u32), 2 => Just(2u32), 1 => prop_oneof![Just(365u32), Just(366), Just(367), Just(400)], 6 => 1u32..=40, 2 => 1u32..=400, 1 => 360u32..=400];
         let invalid = prop_oneof![
             7 => Just(None),
             2 => (0u8..4).prop_flat_map(|w| bad_number(w).prop_map(move |text| Some(Invalid::Arg { which: w, text }))),
@@ -516,6 +516,19 @@ impl Prop for C19 {
         (0u8..9, site, any::<bool>(), gen::date(), len, any::<bool>(), any::<bool>(), invalid, any::<bool>(), prop_oneof![4 => Just(false), 1 => Just(true)], style)
             .prop_map(|(method, site, pass_elevation, start, len, out_file, params_file, invalid, preexisting_files, boundary_lon, (arg_style, omit_method, omit_end))| {
                 let start = start.min(gen::date_hi() - chrono::Duration::days(400));
+                // a sixth of the long ranges are placed so that they end on Dec 31, Jan 1, Feb 28/29 or Mar 1
+                let start = if len >= 300 && start.day() % 6 == 0 {
+                    let y = start.year().clamp(1601, 2398);
+                    let end = match start.day() / 6 % 4 {
+                        0 => gen::ymd(y + 1, 1, 1),
+                        1 => gen::ymd(y, 12, 31),
+                        2 => gen::ymd(y + 1, 3, 1),
+                        _ => gen::ymd(y + 1, 3, 1) - chrono::Duration::days(1),
+                    };
+                    end - chrono::Duration::days(len as i64 - 1)
+                } else {
+                    start
+                };
                 // the default nearest-good-day policy costs up to ~40 ms per day beyond the polar circles: keep
                 // long ranges to moderate latitudes (both dimensions are still covered, not their product)
                 let len = if site.lat.0.abs() > 64.0 { len.min(2) } else if site.lat.0.abs() > 50.0 { len.min(30) } else { len };
